@@ -12,7 +12,9 @@ EXPLANATION = ("Path-complete accounting over the built MIR of every item proces
                "in either configuration, so a failed or timed-out item cannot stop the loop; (R11.4) on the non-zero-timeout arm the awaited future is "
                "tokio::time::timeout(self.futures_timeout, <the item itself>) -- never a wrapper that also contains the accounting or the error callback; (R11.5) the first "
                "argument of every for_each_concurrent is the concurrency_limit parameter up to integer casts and for_each is used only on the limit == 1 arm; "
-               "(R11.6) the counting guard is implied by Instruments::metrics() for every instruments value (bit masks compared).")
+               "(R11.6) the counting guard is implied by Instruments::metrics() for every instruments value (bit masks compared); (R11.7) the configured timeout is the enforced "
+               "one: the Duration handed to Uni / Multi spawn_* reaches StreamExecutor.futures_timeout (the value the dispatch tests against ZERO and R11.4 hands to "
+               "tokio::time::timeout) through plain forwarding only -- no call site recomputes, rounds or clamps it, and the field is never rewritten.")
 ASSUMPTIONS = ["tokio::time::timeout cancels the wrapped future and futures::StreamExt::for_each_concurrent bounds the in-flight futures (dependencies, trusted)",
                "Instruments::metrics() is the definition of 'metrics enabled'"]
 TRUSTED = ["tokio::time::timeout, futures::StreamExt::{for_each, for_each_concurrent}"]
@@ -250,6 +252,59 @@ def check(ctx):
                 polled = any("Timeout" in (c3.get("resolved") or "") and c3.get("fname") == "poll" for (_, c3) in mb.calls)
                 ctx.ob("R11.4", f"{m}|timeout-awaited", polled, mb.loc(b), "the Timeout future is awaited")
     ctx.floor("R11.4", 8); ctx.floor("R11.5", 14)
+    # ---------------------------------------------------------------- R11.7 the configured timeout is the enforced timeout
+    # the Duration handed to Uni / Multi spawn_* reaches StreamExecutor.futures_timeout -- the value tested against ZERO by the dispatch and handed to
+    # tokio::time::timeout (R11.4) -- without being recomputed on the way: a rounded / clamped copy changes which items time out (sub-millisecond
+    # timeouts rounded to ZERO select the variant that enforces nothing)
+    def _forwarded(e, depth=0):
+        e = strip_casts(e)
+        if not isinstance(e, tuple) or depth > 12: return False
+        if e[0] in ("param", "mem", "ref"): return True
+        if e[0] == "const": return "ZERO" in str(e[1]) or e[1] == 0
+        if e[0] == "gconst": return True
+        if e[0] in ("field",): return _forwarded(e[2], depth + 1)
+        if e[0] in ("deref",): return _forwarded(e[1], depth + 1)
+        if e[0] == "call" and e[1].split("::")[-1] in ("clone", "deref", "borrow", "as_ref", "futures_timeout") and len(e[2]) == 1: return _forwarded(e[2][0], depth + 1)
+        return False
+    adt = fx.adts.get(EXE)
+    fidx = [i for i, fl in enumerate(adt["variants"][0]["fields"]) if fl["name"] == "futures_timeout"] if adt else []
+    n7 = 0
+    for f in fx.fns:
+        body = None; dg = None
+        for b_, blk in enumerate(f["blocks"]):
+            for i_, st in enumerate(blk["stmts"]):
+                if st[0] == "A" and st[2][0] == "Agg" and st[2][1][0] == "Adt" and st[2][1][1] == EXE and fidx:
+                    body = body or Body(f); dg = dg or D.Dag(body)
+                    if b_ not in body.reachable: continue
+                    e = dg.expr(st[2][2][fidx[0]])
+                    n7 += 1
+                    ctx.ob("R11.7", f"{f['key']}|stores-the-configured-timeout", _forwarded(e), body.loc(b_, i_),
+                           f"StreamExecutor.futures_timeout is initialised with `{show(e)[:100]}`; required: the caller's Duration, unchanged")
+            t = blk["term"]
+            if t[0] != "Call": continue
+            c = t[1]
+            name = c.get("fname") or ""
+            tgt = c.get("resolved") or c.get("f") or ""
+            if not (name == "with_futures_timeout" or ("executor" in name and name.startswith("spawn"))) or not tgt.split("<")[0].startswith(("stream_executor::", "uni::", "multi::")): continue
+            body = body or Body(f); dg = dg or D.Dag(body)
+            if b_ not in body.reachable: continue
+            for ai, a in enumerate(c["args"]):
+                l = op_local(a)
+                if l is None or body.locals[l]["ty"] != "std::time::Duration": continue
+                e = dg.expr(a)
+                n7 += 1
+                ctx.ob("R11.7", f"{f['key']}|forwards-the-timeout|{name}", _forwarded(e), body.loc(b_),
+                       f"{name}(.., {show(e)[:100]}, ..): the futures timeout handed on must be the caller's own Duration (or ZERO), unchanged")
+    for f in fx.fns:
+        if f.get("impl_self") != EXE and "futures_timeout" not in str(f["blocks"])[:0]: pass
+    import guards as _g
+    for f in fx.fns:
+        if not any(st[0] == "A" and any(e != "*" and e[0] == "f" and e[1] == "futures_timeout" for e in st[1]["p"]) for blk in f["blocks"] for st in blk["stmts"]): continue
+        body = Body(f)
+        for a in _g.accesses(body, EXE, {"futures_timeout"}):
+            if a["kind"] == "w":
+                ctx.ob("R11.7", f"{f['key']}|rewrites-the-timeout", False, a["site"], "StreamExecutor.futures_timeout is written after construction")
+    ctx.floor("R11.7", 10)
     # ---------------------------------------------------------------- R11.6 counting guard implied by metrics()
     masks = {}
     for fn in ("cheap_profiling", "metrics"):
